@@ -448,6 +448,13 @@ class CompleteStageHandler(
                     # Apply split logic to determine which downstreams to activate
                     activated_downstreams, skipped_downstreams = self._apply_split_logic(stage, downstream_stages)
 
+                    # Keep the split decision with the stage: until their SkipStage
+                    # messages are handled the branches not taken are NOT_STARTED
+                    # with a finished upstream, which is exactly what a recovery
+                    # sweep takes for "ready to start" (see WorkflowRecovery._can_start).
+                    if skipped_downstreams:
+                        stage.context["_skipped_branches"] = sorted(d.ref_id for d in skipped_downstreams)
+
                     # Track activated branches for OR-join (WCP-7)
                     if stage.split_type == SplitType.OR and activated_downstreams:
                         self._record_activated_branches(stage, activated_downstreams)
